@@ -5,7 +5,7 @@
       the element at index idx ++ [n] of every output, computed from q := stack vs, is the element at index idx
       computed by the ORIGINAL function from q := vs[n]  (denote_elem of Model/MapDenote.v). *)
 From Verif Require Import Base.Prelude Base.StrUtil Base.Index Base.NdArr Model.MapSpec Model.MapSpecSpec
-  Model.MapRun Model.MapDenote Model.RewriteMap Proofs.StrFacts Proofs.ListFacts Proofs.IndexFacts Proofs.MapSpecFacts Proofs.RewriteMapFacts.
+  Model.MapRun Model.MapDenote Model.RewriteMap Proofs.StrFacts Proofs.ListFacts Proofs.IndexFacts Proofs.MapSpecFacts Proofs.RewriteMapFacts Proofs.FSStoreFacts.
 
 (* ------------------------------------------------------------------ A. arrays *)
 Lemma prod_app a b : prod (a ++ b) = prod a * prod b.
@@ -400,4 +400,288 @@ Example add_axis_lifts_instance :
     /\ stacked [2] [a0; a1] = {| shp := [2; 2]; dat := [s "p"; s "r"; s "q"; s "t"] |}
     /\ denote_elem body f ms' [(s "x", VA (stacked [2] [a0; a1]))] [true; true] 0 [1; 0] = Ok (s "f(q)")
     /\ denote_elem body f ms [(s "x", VA a0)] [true] 0 [1] = Ok (s "f(q)").
+Proof. cbv zeta. eexists. split; [vm_compute; reflexivity|]. repeat split; vm_compute; reflexivity. Qed.
+
+(* ------------------------------------------------------------------ C. a function without MapSpec gets `q[:, .., k] -> outs[k]` *)
+Lemma nd_get_in_bounds {A} (a : nd A) idx : nd_wf a = true -> in_bounds (shp a) idx = true -> exists x, nd_get a idx = Some x.
+Proof.
+  intros Hwf Hb. unfold nd_get. rewrite Hb. unfold nd_wf in Hwf. apply Nat.eqb_eq in Hwf.
+  pose proof (ravel_lt (shp a) idx Hb) as Hr. destruct (nth_error (dat a) (ravel (shp a) idx)) as [x|] eqn:E; [eauto|].
+  apply nth_error_None in E. lia.
+Qed.
+
+Lemma ext_int_all_false {A} : forall (l : list A), ext_of (repeat false (length l)) l = [] /\ int_of (repeat false (length l)) l = l.
+Proof. induction l as [|x l [E1 E2]]; cbn; [split; reflexivity|]. rewrite E1, E2. split; reflexivity. Qed.
+
+Lemma merge_all_false {A} : forall (j : list A), merge (repeat false (length j)) [] j = j.
+Proof. induction j as [|x j IH]; cbn; [reflexivity|]. now rewrite IH. Qed.
+
+(* a[:, .., :] is a *)
+Lemma nd_index_all (a : nd str) : nd_wf a = true -> nd_index a (repeat KAll (length (shp a))) = Ok a.
+Proof.
+  intros Hwf. unfold nd_index. rewrite repeat_length, Nat.eqb_refl. cbn [negb].
+  assert (Em : forall r, map key_is_int (repeat KAll r) = repeat false r).
+  { induction r as [|r IH]; cbn; [reflexivity|]. now rewrite IH. }
+  assert (Ek : forall r, key_ints (repeat KAll r) = []).
+  { unfold key_ints. induction r as [|r IH]; cbn; [reflexivity|exact IH]. }
+  rewrite Em, Ek. destruct (ext_int_all_false (shp a)) as [E1 E2]. rewrite E1, E2. cbn [in_bounds negb].
+  rewrite (FSStoreFacts.dat_enumerates a); [destruct a; reflexivity|exact Hwf|].
+  intros idx Hidx. apply FSStoreFacts.all_indices_in_bounds in Hidx.
+  rewrite <- (in_bounds_len (shp a) idx Hidx), merge_all_false.
+  destruct (nd_get_in_bounds a idx Hwf Hidx) as [x Hx]. exists x. rewrite Hx. split; reflexivity.
+Qed.
+
+Section FreshSpec.
+  Variable body : mfunc -> env -> result (list val).
+  Variables (f : mfunc) (q k : str) (dims : dims_t) (ms' : mapspec).
+  Hypothesis Hnone : fspec f = None.
+  Hypothesis Hnew : new_spec f q dims k = Ok ms'.
+  Variable sh : list nat.
+  Variable arrs : list (nd str).
+  Hypothesis Hshape : forall a, In a arrs -> shp a = sh /\ length (dat a) = prod sh.
+  Hypothesis Hrank : dict_get dims q = Some (S (length sh)).       (* the rank of q after the axis is added *)
+  Hypothesis Hsh : sh <> [].
+  Variable n : nat.
+  Variable an : nd str.
+  Hypothesis Han : nth_error arrs n = Some an.
+
+  Lemma fresh_spec_shape :
+    ins ms' = [{| aname := q; axes := repeat None (length sh) ++ [Some k] |}]
+    /\ outs ms' = map (fun o => {| aname := o; axes := [Some k] |}) (fouts f) /\ fouts f <> [].
+  Proof.
+    unfold new_spec in Hnew. rewrite Hnone in Hnew.
+    destruct (mk_aspec q (axes_from_dims q dims k)) as [i|] eqn:Ei; cbn [bind] in Hnew; [|discriminate].
+    destruct (mapM (fun o => mk_aspec o [Some k]) (fouts f)) as [o|] eqn:Eo; cbn [bind] in Hnew; [|discriminate].
+    apply mk_aspec_ok in Ei as (_ & Ei1 & Ei2). unfold axes_from_dims in Ei2. rewrite Hrank in Ei2.
+    replace (S (length sh) - 1) with (length sh) in Ei2 by lia.
+    assert (Ho : o = map (fun o => {| aname := o; axes := [Some k] |}) (fouts f)).
+    { apply (mapM_is_map _ _ _ _ Eo). intros x y _ Ex. apply mk_aspec_ok in Ex as (_ & E1 & E2). destruct y; cbn in *; subst; reflexivity. }
+    assert (Hms : ms' = {| ins := [i]; outs := o |}).
+    { unfold mk_mapspec in Hnew. destruct o as [|o0 rest]; [discriminate|].
+      destruct (existsb _ (o0 :: rest)); [discriminate|]. destruct (negb _); [discriminate|]. destruct (negb _); [discriminate|].
+      congruence. }
+    subst ms'. cbn [ins outs]. split; [|split; [exact Ho|]].
+    - destruct i; cbn in *; subst; reflexivity.
+    - intros E0. rewrite E0 in Ho. cbn in Ho. subst o. discriminate.
+  Qed.
+
+  Lemma fresh_external : external_indices ms' = [k].
+  Proof.
+    destruct fresh_spec_shape as (Ei & Eo & Hne). unfold external_indices, output_indices, input_indices_list.
+    rewrite Ei, Eo. destruct (fouts f) as [|o0 r]; [congruence|]. cbn [map flat_map indices axes somes app filter].
+    rewrite app_nil_r. unfold indices. cbn [axes]. rewrite somes_app_loc. cbn [somes].
+    assert (E : mem_str k (somes (repeat None (length sh)) ++ [k]) = true) by (apply mem_str_In; apply in_or_app; right; left; reflexivity).
+    rewrite E. reflexivity.
+  Qed.
+
+  Lemma fresh_arg_at pv :
+    arg_at ms' [n] (setq q (VA (stacked sh arrs)) pv) = Ok (setq q (VA an) pv).
+  Proof.
+    destruct fresh_spec_shape as (Ei & _ & _). unfold arg_at. rewrite Ei. cbn [find aname fst snd setq].
+    rewrite str_eqb_sym. destruct (str_eqb (fst pv) q) eqn:Eq; [|unfold setq; rewrite Eq; reflexivity].
+    rewrite fresh_external. cbn [axes]. rewrite mapM_app_loc.
+    assert (E1 : mapM (fun ax : option str => match ax with
+                        | None => Ok KAll
+                        | Some x => match pos_of x [k] with
+                                    | Some p => match nth_error [n] p with Some c => Ok (KInt c) | None => Err IndexError end
+                                    | None => Err KeyError end end) (repeat None (length sh)) = Ok (repeat KAll (length sh))).
+    { generalize (length sh). induction n0 as [|r IH]; [reflexivity|]. cbn [repeat mapM]. rewrite IH. reflexivity. }
+    rewrite E1. cbn [bind mapM pos_of]. rewrite str_eqb_refl. cbn [nth_error bind app].
+    destruct (Hshape an (nth_error_In _ _ Han)) as [Hs Hd].
+    rewrite (stacked_index_val sh arrs Hshape (repeat KAll (length sh)) n an Han).
+    unfold index_val. rewrite <- Hs. rewrite nd_index_all by (unfold nd_wf; rewrite Hd, Hs; apply Nat.eqb_refl).
+    cbn [bind]. rewrite Hs. destruct sh; [congruence|]. cbn [bind]. unfold setq. rewrite Eq. reflexivity.
+  Qed.
+
+  (* element n of output j of the function that got `q[:, .., k] -> outs[k]`, from q := stack, is the j-th value the
+     ORIGINAL (unmapped) function returns from q := the n-th array *)
+  Theorem fresh_elem kw j :
+    denote_elem body f ms' (map (setq q (VA (stacked sh arrs))) kw) [true] j [n]
+    = do outs <- body f (map (setq q (VA an)) kw);
+      match nth_error outs j with
+      | Some (VS x) => Ok x
+      | _ => Err ValueError
+      end.
+  Proof.
+    unfold denote_elem. cbn [ext_of forallb id andb]. rewrite mapM_map_loc.
+    assert (E : mapM (fun x => arg_at ms' [n] (setq q (VA (stacked sh arrs)) x)) kw = Ok (map (setq q (VA an)) kw)).
+    { induction kw as [|pv t IH]; cbn [mapM map]; [reflexivity|]. rewrite fresh_arg_at. cbn [bind]. rewrite IH. reflexivity. }
+    rewrite E. cbn [bind]. destruct (body f (map (setq q (VA an)) kw)) as [outs|err]; cbn [bind]; [|reflexivity].
+    destruct (nth_error outs j) as [[x|a]|]; reflexivity.
+  Qed.
+End FreshSpec.
+
+(* non-vacuity: g(y, c) -> z without MapSpec; add_mapspec_axis reaches it through y (rank 2 after the axis is added):
+   `y[:, k] -> z[k]`; element 1 of the new z is what g returns from the second stacked array *)
+Example add_axis_fresh_instance :
+  let g := {| fname := s "g"; fouts := [s "z"]; fparams := [s "y"; s "c"]; fbound := []; fdefaults := [];
+              fspec := None; fint := []; fret := [] |} in
+  let a0 := {| shp := [2]; dat := [s "p"; s "q"] |} in
+  let a1 := {| shp := [2]; dat := [s "r"; s "t"] |} in
+  let body := fun (h : mfunc) (kw : env) =>
+                match kw with [(_, VA a); (_, VS c)] => Ok [VS (s "g(" ++ StrUtil.join (s "|") (dat a) ++ s "," ++ c ++ s ")")] | _ => Err ValueError end in
+  exists ms', new_spec g (s "y") [(s "y", 2)] (s "k") = Ok ms' /\ print ms' = s "y[:, k] -> z[k]"
+    /\ denote_elem body g ms' [(s "y", VA (stacked [2] [a0; a1])); (s "c", VS (s "C"))] [true] 0 [1] = Ok (s "g(r|t,C)")
+    /\ body g [(s "y", VA a1); (s "c", VS (s "C"))] = Ok [VS (s "g(r|t,C)")].
+Proof. cbv zeta. eexists. split; [vm_compute; reflexivity|]. repeat split; vm_compute; reflexivity. Qed.
+
+
+(* ------------------------------------------------------------------ D. a mapped function that takes q whole: q is appended *)
+Definition appended (q k : str) (r : nat) (ms ms' : mapspec) : Prop :=
+  ins ms' = ins ms ++ [{| aname := q; axes := repeat None r ++ [Some k] |}]
+  /\ outs ms' = map (add_ax k) (outs ms).
+
+Lemma find_app_none {A} (P : A -> bool) l l' : find P l = None -> find P (l ++ l') = find P l'.
+Proof. induction l as [|x l IH]; cbn; [reflexivity|]. destruct (P x); [discriminate|exact IH]. Qed.
+Lemma find_app_some {A} (P : A -> bool) l l' x : find P l = Some x -> find P (l ++ l') = Some x.
+Proof. induction l as [|y l IH]; cbn; [discriminate|]. destruct (P y); [auto|exact IH]. Qed.
+Lemma somes_repeat_none {A} r : somes (repeat (@None A) r) = [].
+Proof. induction r as [|r IH]; cbn; [reflexivity|exact IH]. Qed.
+
+Section AppendedFunc.
+  Variable body : mfunc -> env -> result (list val).
+  Variables (q k : str) (ms ms' : mapspec).
+  Variable sh : list nat.
+  Hypothesis Happ : appended q k (length sh) ms ms'.
+  Hypothesis Hfresh : forall a, In a (ins ms ++ outs ms) -> ~ In k (indices a).
+  Hypothesis Hq : ~ In q (map aname (ins ms)).                                       (* q is taken whole *)
+  Hypothesis Houts : outs ms <> [].
+  Hypothesis Hsh : sh <> [].
+
+  Lemma app_output_indices : output_indices ms' = output_indices ms ++ [k].
+  Proof.
+    unfold output_indices. rewrite (proj2 Happ). destruct (outs ms) as [|o0 r]; [congruence|]. cbn [map].
+    unfold indices, add_ax. cbn [axes]. rewrite somes_app_loc. reflexivity.
+  Qed.
+
+  Lemma app_input_indices n : In n (input_indices_list ms') <-> In n (input_indices_list ms) \/ n = k.
+  Proof.
+    unfold input_indices_list. rewrite (proj1 Happ), flat_map_app. cbn [flat_map]. rewrite app_nil_r.
+    unfold indices at 2. cbn [axes]. rewrite somes_app_loc, somes_repeat_none. cbn [somes app].
+    split; [intros H; apply in_app_or in H as [H|[<-|[]]]; auto|]. intros [H| ->]; apply in_or_app; [left; exact H|right; left; reflexivity].
+  Qed.
+
+  Lemma app_k_not_output : ~ In k (output_indices ms).
+  Proof.
+    unfold output_indices. destruct (outs ms) as [|o0 r] eqn:Eo; [congruence|]. apply (Hfresh o0). apply in_or_app. right. left. reflexivity.
+  Qed.
+
+  Lemma app_external : external_indices ms' = external_indices ms ++ [k].
+  Proof.
+    unfold external_indices. rewrite app_output_indices, filter_app. f_equal.
+    - apply filter_ext_in. intros n Hn.
+      destruct (mem_str n (input_indices_list ms)) eqn:E.
+      + apply mem_str_In. apply app_input_indices. left. apply mem_str_In. exact E.
+      + destruct (mem_str n (input_indices_list ms')) eqn:E'; [|reflexivity]. apply mem_str_In in E'.
+        apply app_input_indices in E' as [E'| ->]; [apply mem_str_In in E'; congruence|].
+        exfalso. apply app_k_not_output. exact Hn.
+    - cbn. assert (E : mem_str k (input_indices_list ms') = true) by (apply mem_str_In; apply app_input_indices; right; reflexivity).
+      rewrite E. reflexivity.
+  Qed.
+
+  Variable e : list nat.
+  Variable n : nat.
+  Hypothesis He : length e = length (external_indices ms).
+  Variable arrs : list (nd str).
+  Hypothesis Hshape : forall a, In a arrs -> shp a = sh /\ length (dat a) = prod sh.
+  Variable an : nd str.
+  Hypothesis Han : nth_error arrs n = Some an.
+
+  Lemma arg_at_appended pv :
+    arg_at ms' (e ++ [n]) (setq q (VA (stacked sh arrs)) pv) = arg_at ms e (setq q (VA an) pv).
+  Proof.
+    unfold arg_at. cbn [fst snd setq]. rewrite (proj1 Happ), app_external.
+    fold (keyf (external_indices ms ++ [k]) (e ++ [n])). fold (keyf (external_indices ms) e).
+    destruct (find (fun a => str_eqb (aname a) (fst pv)) (ins ms)) as [a|] eqn:Ef.
+    - rewrite (find_app_some _ _ _ a Ef). pose proof Ef as Ef'. apply find_some in Ef' as [Ha Hn]. apply str_eqb_eq in Hn.
+      assert (Eq : str_eqb (fst pv) q = false).
+      { apply str_eqb_neq. intros E0. apply Hq. rewrite <- E0, <- Hn. apply in_map. exact Ha. }
+      rewrite Eq.
+      rewrite (mapM_ext_in (keyf (external_indices ms ++ [k]) (e ++ [n])) (keyf (external_indices ms) e)); [reflexivity|].
+      intros ax Hax. apply (keyf_old k ms e n He). intros ->. apply (Hfresh a); [apply in_or_app; left; exact Ha|].
+      apply in_somes. exact Hax.
+    - rewrite (find_app_none _ _ _ Ef). cbn [find aname]. rewrite str_eqb_sym.
+      destruct (str_eqb (fst pv) q) eqn:Eq; [|unfold setq; rewrite Eq; reflexivity].
+      cbn [axes]. rewrite mapM_app_loc.
+      assert (E1 : forall r, mapM (keyf (external_indices ms ++ [k]) (e ++ [n])) (repeat None r) = Ok (repeat KAll r)).
+      { induction r as [|r IH]; [reflexivity|]. cbn [repeat mapM keyf]. rewrite IH. reflexivity. }
+      rewrite E1. cbn [bind mapM]. rewrite (keyf_new k ms Hfresh Houts e n He). cbn [bind].
+      destruct (Hshape an (nth_error_In _ _ Han)) as [Hs Hd].
+      rewrite (stacked_index_val sh arrs Hshape (repeat KAll (length sh)) n an Han).
+      unfold index_val. rewrite <- Hs. rewrite nd_index_all by (unfold nd_wf; rewrite Hd, Hs; apply Nat.eqb_refl).
+      cbn [bind]. rewrite Hs. destruct sh; [congruence|]. cbn [bind]. unfold setq. rewrite Eq. reflexivity.
+  Qed.
+
+  Variable f : mfunc.
+  Variable kw : env.
+  Variable mask : list bool.
+  Variable idx : list nat.
+  Hypothesis Hlen : length mask = length idx.
+  Hypothesis Hidx : ext_of mask idx = e.
+
+  Theorem appended_elem j :
+    denote_elem body f ms' (map (setq q (VA (stacked sh arrs))) kw) (mask ++ [true]) j (idx ++ [n])
+    = denote_elem body f ms (map (setq q (VA an)) kw) mask j idx.
+  Proof.
+    unfold denote_elem. destruct (ext_int_snoc mask idx n Hlen) as [E1 E2]. rewrite E1, E2, Hidx.
+    rewrite !mapM_map_loc. rewrite (mapM_ext_in _ (fun pv => arg_at ms e (setq q (VA an) pv))) by (intros pv _; apply arg_at_appended).
+    rewrite forallb_app. cbn [forallb id]. rewrite andb_true_r. reflexivity.
+  Qed.
+End AppendedFunc.
+
+Lemma new_spec_appended f q dims k ms ms' r : fspec f = Some ms -> mem_str q (map aname (ins ms)) = false ->
+  (forall a, In a (outs ms) -> has_axis k a = false) -> dict_get dims q = Some (S r) ->
+  new_spec f q dims k = Ok ms' -> appended q k r ms ms' /\ outs ms <> [].
+Proof.
+  intros Es Hm Hf Hd E. unfold new_spec in E. rewrite Es, Hm in E.
+  destruct (mk_aspec q (axes_from_dims q dims k)) as [a|] eqn:Ea; cbn [bind] in E; [|discriminate].
+  destruct (mapM _ (outs ms)) as [o|] eqn:Eo; cbn [bind] in E; [|discriminate].
+  apply mk_aspec_ok in Ea as (_ & Ea1 & Ea2). unfold axes_from_dims in Ea2. rewrite Hd in Ea2.
+  replace (S r - 1) with r in Ea2 by lia.
+  assert (Ho : o = map (add_ax k) (outs ms)).
+  { apply (mapM_is_map _ _ _ _ Eo). intros x x' Hx Ex. rewrite (Hf x Hx) in Ex. cbn [negb] in Ex. apply add_axes_is_add_ax. exact Ex. }
+  assert (Hms : ms' = {| ins := ins ms ++ [a]; outs := o |}).
+  { unfold mk_mapspec in E. destruct o as [|o0 rest]; [discriminate|].
+    destruct (existsb _ (o0 :: rest)); [discriminate|]. destruct (negb _); [discriminate|]. destruct (negb _); [discriminate|].
+    congruence. }
+  split.
+  - subst ms'. split; cbn [ins outs]; [|exact Ho]. destruct a; cbn in *; subst; reflexivity.
+  - intros E0. rewrite E0 in Ho. cbn in Ho. subst o. discriminate.
+Qed.
+
+(* add_axis_lifts, pointwise, third branch of new_spec: a mapped function that takes q WHOLE *)
+Theorem add_axis_lifts_elem_whole body f q dims k ms ms' e n sh arrs an kw mask idx j :
+  fspec f = Some ms -> mem_str q (map aname (ins ms)) = false ->
+  (forall a, In a (ins ms ++ outs ms) -> has_axis k a = false) ->
+  dict_get dims q = Some (S (length sh)) -> sh <> [] ->
+  new_spec f q dims k = Ok ms' ->
+  (forall a, In a arrs -> shp a = sh /\ length (dat a) = prod sh) -> nth_error arrs n = Some an ->
+  length mask = length idx -> ext_of mask idx = e -> length e = length (external_indices ms) ->
+  denote_elem body f ms' (map (setq q (VA (stacked sh arrs))) kw) (mask ++ [true]) j (idx ++ [n])
+  = denote_elem body f ms (map (setq q (VA an)) kw) mask j idx.
+Proof.
+  intros Es Hm Hf Hd Hsh E Hshape Han Hlen Hidx He.
+  destruct (new_spec_appended f q dims k ms ms' (length sh) Es Hm (fun a Ha => Hf a (in_or_app _ _ a (or_intror Ha))) Hd E) as [HA Ho].
+  assert (Hfr : forall a, In a (ins ms ++ outs ms) -> ~ In k (indices a)).
+  { intros a Ha. apply has_axis_false. apply Hf. exact Ha. }
+  assert (Hq : ~ In q (map aname (ins ms))).
+  { intros Hin. apply mem_str_In in Hin. congruence. }
+  exact (appended_elem body q k ms ms' sh HA Hfr Hq Ho Hsh e n He arrs Hshape an Han f kw mask idx Hlen Hidx j).
+Qed.
+
+(* non-vacuity: h : x[i] -> y[i] takes w whole; the axis added for w gives `x[i], w[:, k] -> y[i, k]`;
+   element (1, 1) of the new y is element 1 of the old y computed with w := the second stacked array *)
+Example add_axis_whole_instance :
+  let A nm ax := {| aname := nm; axes := ax |} in
+  let ms := {| ins := [A (s "x") [Some (s "i")]]; outs := [A (s "y") [Some (s "i")]] |} in
+  let h := {| fname := s "h"; fouts := [s "y"]; fparams := [s "x"; s "w"]; fbound := []; fdefaults := [];
+              fspec := Some ms; fint := []; fret := [] |} in
+  let a0 := {| shp := [2]; dat := [s "p"; s "q"] |} in
+  let a1 := {| shp := [2]; dat := [s "r"; s "t"] |} in
+  let X := VA {| shp := [2]; dat := [s "u"; s "v"] |} in
+  let body := fun (g : mfunc) (kw : env) =>
+                match kw with [(_, VS x); (_, VA a)] => Ok [VS (s "h(" ++ x ++ s "," ++ StrUtil.join (s "|") (dat a) ++ s ")")] | _ => Err ValueError end in
+  exists ms', new_spec h (s "w") [(s "w", 2)] (s "k") = Ok ms' /\ print ms' = s "x[i], w[:, k] -> y[i, k]"
+    /\ denote_elem body h ms' [(s "x", X); (s "w", VA (stacked [2] [a0; a1]))] [true; true] 0 [1; 1] = Ok (s "h(v,r|t)")
+    /\ denote_elem body h ms [(s "x", X); (s "w", VA a1)] [true] 0 [1] = Ok (s "h(v,r|t)").
 Proof. cbv zeta. eexists. split; [vm_compute; reflexivity|]. repeat split; vm_compute; reflexivity. Qed.
